@@ -72,41 +72,52 @@ theorem mem_kill_monotone (f : Frame) (ms : List MemOp) (M M' : BitVec 64) (hl :
 
 /-- **A bracket without a memory limit of its own cannot absorb a memory termination**: for every
 well-formed body, if the body is terminated for memory and the enclosing context is memory-limited,
-the enclosing context is terminated as well and nothing runs in between (commit 0426709; before it
-`pcall(string.rep, 'x', 1e6)` returned false and the program went on). -/
+the enclosing context is terminated as well and nothing runs in between (commit 0426709) —
+PROVIDED the body did not release memory of the enclosing context (`hund`: the frame below the
+bracket still accounts for what it accounted for at the call).  Without that proviso the statement
+is false of the current code: `stale_limit_absorbs_counterexample`. -/
 theorem limitless_bracket_cannot_absorb_mem (a : Acc) (d : CtxDef) (body : List Item) (hw : wfBody body = true)
     (hi : Inv a.st) (hl : a.st.cur.live = true) (hd : d.hard.Memory = 0#64) (hL : a.st.cur.hard.Memory ≠ 0#64)
-    (hk : (runBody { a with st := push a.st d } body).2 = .killed .mem) :
+    (hk : (runBody { a with st := push a.st d } body).2 = .killed .mem)
+    (hund : ∀ p' ps', (runBody { a with st := push a.st d } body).1.st.parents = p' :: ps' →
+      p'.used.Memory = a.st.cur.used.Memory) :
     (runItem a (.call d body)).2 = .killed .mem ∧
     (runItem a (.call d body)).1.st.cur.status = StatusKilled ∧
-    (runItem a (.call d body)).1.st.parents = a.st.parents ∧
+    LowerL (runItem a (.call d body)).1.st.parents a.st.parents ∧
     (runItem a (.call d body)).1.events = (runBody { a with st := push a.st d } body).1.events ∧
     (runItem a (.call d body)).1.results = (runBody { a with st := push a.st d } body).1.results :=
-  limitless_bracket_propagates_mem a d body hw hi hl hd hL hk
+  limitless_bracket_propagates_mem a d body hw hi hl hd hL hk hund
 
-/-- **monotone in M through any nesting of limit-less brackets**: take any program made of memory
-requests, releases and pcall-like brackets, and run it in two stacks whose active contexts differ
-only in their hard memory limit (`RelS δ`: the first has `δ` bytes more).  If the run under the
-smaller limit is not terminated, the run under the larger limit ends in exactly the same way (same
-exit: done or the same foreign panic) and the two contexts are again related — so a program killed
-under `M` is killed under every `M' ≤ M`.  (False before 0426709: done at 512, killed at 768.) -/
-theorem mem_kill_monotone_nested (δ : Nat) (a a' : Acc) (body : List Item) (hw : bodyPcallMem body = true)
+/-- **monotone in M through any nesting of limit-less brackets**, for programs whose brackets
+release only memory they have themselves required (`bodyLocalRel`: each bracket's own running
+balance never negative; amounts cannot wrap): run such a program in two stacks whose active
+contexts differ only in their hard memory limit (`RelS δ`: the first has `δ` bytes more).  If the
+run under the smaller limit is not terminated, the run under the larger limit ends in exactly the
+same way and the contexts are again related — so killed under `M` ⇒ killed under every `M' ≤ M`.
+For programs that release across brackets this is false of the current code:
+`mem_kill_monotone_nested_counterexample`. -/
+theorem mem_kill_monotone_nested (δ B b : Nat) (a a' : Acc) (body : List Item) (hw : bodyPcallMem body = true)
+    (hlr : bodyLocalRel B b body)
     (hr : RelS δ a.st a'.st) (hi : Inv a.st) (hi' : Inv a'.st) (hl' : a'.st.cur.live = true)
-    (hs' : a'.st.cur.hardStopped = false)
+    (hs' : a'.st.cur.hardStopped = false) (hB : a.st.cur.hard.Memory.toNat ≤ B)
+    (hb : b ≤ a'.st.cur.used.Memory.toNat)
     (hk : ∃ res, (runBody a body).2 = .killed res) : ∃ res, (runBody a' body).2 = .killed res := by
   apply Classical.byContradiction
   intro hn
   have hnk : NotKilled (runBody a' body).2 := fun res h => hn ⟨res, h⟩
-  obtain ⟨he, _⟩ := sim_body δ a a' body hw hr hi hi' hl' hs' hnk
+  obtain ⟨he, _⟩ := sim_body δ B b a a' body hw hlr hr hi hi' hl' hs' hB hb hnk
   obtain ⟨res, hres⟩ := hk
   rw [he] at hres
   exact hnk res hres
 
-/-- in a memory program every termination is a memory termination, at any depth -/
-theorem mem_program_killed_by_memory (a : Acc) (body : List Item) (hw : bodyPcallMem body = true) (hi : Inv a.st)
-    (hl : a.st.cur.live = true) (hs : a.st.cur.hardStopped = false) (h0 : a.st.cur.hard.Memory ≠ 0#64) :
-    ∀ res, (runBody a body).2 = .killed res → res = .mem :=
-  (memrun_body a body hw hi hl hs h0).cause
+/-- in such a program every termination is a memory termination, at any depth, and no release
+reaches a frame below the bracket that issued it -/
+theorem mem_program_killed_by_memory (B b : Nat) (a : Acc) (body : List Item) (hw : bodyPcallMem body = true)
+    (hlr : bodyLocalRel B b body) (hi : Inv a.st)
+    (hl : a.st.cur.live = true) (hs : a.st.cur.hardStopped = false) (h0 : a.st.cur.hard.Memory ≠ 0#64)
+    (hB : a.st.cur.hard.Memory.toNat ≤ B) (hb : b ≤ a.st.cur.used.Memory.toNat) :
+    (∀ res, (runBody a body).2 = .killed res → res = .mem) ∧ (runBody a body).1.st.parents = a.st.parents :=
+  ⟨(memrun_body B b a body hw hlr hi hl hs h0 hB hb).cause, (memrun_body B b a body hw hlr hi hl hs h0 hB hb).parents⟩
 
 /-- **no underflow inside a frame**: a context that releases only what it has itself required
 (running balance never negative), with amounts that cannot wrap the counter, never raises
@@ -126,25 +137,103 @@ theorem release_unlimited_is_noop (f : Frame) (n : BitVec 64) (h0 : f.hard.Memor
   · exact absurd h0 hne
   · exact absurd h0 hne
 
+/-! ### releasing across contexts (commit 8007e69: ReleaseMem cascades to the enclosing context) -/
+
+/-- **release cascades exactly**: whenever the amount is covered by what the reachable contexts
+account for (the active context and its ancestors down to, excluding, the first context without a
+hard memory limit), the release succeeds, the memory accounted on the whole stack — and on the
+reachable contexts — decreases by exactly the amount, no frame's counter increases (so none goes
+below zero), and the innermost frames are drained first: a parent is touched only once the
+active context holds nothing. -/
+theorem release_cascades_exactly (s : St) (n : BitVec 64)
+    (hcov : n.toNat ≤ memOf (limitedPrefix s.frames)) :
+    (step s (.relMem n)).2 = .ok ∧
+    memOf (step s (.relMem n)).1.frames + n.toNat = memOf s.frames ∧
+    memOf (limitedPrefix (step s (.relMem n)).1.frames) + n.toNat = memOf (limitedPrefix s.frames) ∧
+    LowerL (step s (.relMem n)).1.frames s.frames ∧
+    ((step s (.relMem n)).1.parents ≠ s.parents → (step s (.relMem n)).1.cur.used.Memory = 0#64) := by
+  have sp := releaseStack_spec s.cur s.parents n
+  have hl := releaseStack_lower s.cur s.parents n
+  obtain ⟨h1, h2, h3⟩ := sp.1 hcov
+  exact ⟨h1, h2, h3, LowerL.cons hl.1 hl.2, sp.2.2.2⟩
+
+/-- **a release crashes only when nothing can cover or absorb it**: the panic "Too much mem
+released" happens iff every context of the stack, down to the outermost, is memory-limited and all
+of them together account for less than the amount (the genuine double release, detected at the
+outermost limited context). -/
+theorem release_never_crashes_when_covered (s : St) (n : BitVec 64) :
+    (step s (.relMem n)).2 = .crash ↔ (limitedPrefix s.frames = s.frames ∧ memOf s.frames < n.toNat) :=
+  (releaseStack_spec s.cur s.parents n).2.1
+
+/-- an uncovered release above a context without memory limit: the reachable contexts are drained
+to zero and the rest of the amount is dropped — no crash, and the double release goes unnoticed -/
+theorem release_uncovered_is_absorbed (s : St) (n : BitVec 64)
+    (hun : memOf (limitedPrefix s.frames) < n.toNat) (hroot : limitedPrefix s.frames ≠ s.frames) :
+    (step s (.relMem n)).2 = .ok ∧ memOf (limitedPrefix (step s (.relMem n)).1.frames) = 0 :=
+  (releaseStack_spec s.cur s.parents n).2.2.1 hun hroot
+
+/-- the outermost context of a runtime made by `rt.New` has no memory limit and nothing ever gives
+it one; so **in every state reachable by any history — legal or not — releasing memory never
+crashes**, whatever the amount -/
+theorem release_never_crashes_from_fresh_runtime (ops : List Op) (n : BitVec 64) :
+    (step (run St.init ops) (.relMem n)).2 ≠ .crash := by
+  have hroot : ∀ (s : St) (ops : List Op), rootHardMem s.cur s.parents = 0#64 →
+      rootHardMem (run s ops).cur (run s ops).parents = 0#64 := by
+    intro s ops
+    induction ops generalizing s with
+    | nil => exact id
+    | cons op ops ih => intro h; exact ih (step s op).1 (by rw [rootHardMem_step]; exact h)
+  have h0 := hroot St.init ops rfl
+  intro hc
+  have := (release_never_crashes_when_covered (run St.init ops) n).mp hc
+  exact all_limited_root _ _ this.1 h0
+
 def crossDef : CtxDef := ⟨⟨0#64, 1000000#64, 0#64⟩, Res.zero, 0#16⟩
-/-- memory required in the outer context, released in an inner one: what a coroutine created
-outside and finished inside a limited context (or inside a pcall under a limit) does with its
-2048-byte stack charge -/
-def crossOps : List Op := [.push crossDef, .reqMem 2048#64, .push CtxDef.none, .reqMem 100#64, .relMem 2048#64]
+/-- memory required in the outer context, released two brackets further in: what a coroutine
+created outside and finished inside nested pcalls does with its 2048-byte stack charge -/
+def crossOps : List Op :=
+  [.push crossDef, .reqMem 2048#64, .push CtxDef.none, .reqMem 100#64, .push CtxDef.none, .reqMem 7#64, .relMem 2148#64]
 
-/-- **across frames the pairing is FALSE of the current code**: every byte released was required
-earlier in the same history, the history is legal, yet ReleaseMem panics, because the child
-context starts with `used = 0` and the release is applied to it.  Replayed on the real interpreter
-by the probes of checks/c06.py (whole process dies). -/
-theorem release_across_frames_counterexample :
-    Legal St.init crossOps ∧ outcomes St.init crossOps = [.ok, .ok, .ok, .ok, .crash] ∧
-    (run St.init crossOps).cur.used.Memory = 100#64 := by decide
+/-- the former crash (`release_across_frames_counterexample`), now exact: 2148 bytes released at
+depth 3 take 7 from the innermost context, 100 from the middle one and 2041 from the context that
+had required them; then the pops charge each parent with what its child still holds -/
+example : outcomes St.init crossOps = [.ok, .ok, .ok, .ok, .ok, .ok, .ok] ∧
+    (run St.init crossOps).frames.map (fun f => f.used.Memory) = [0#64, 0#64, 7#64, 0#64] ∧
+    (run St.init (crossOps ++ [.pop, .pop])).cur.used.Memory = 7#64 := by decide +kernel
 
-/-- the same through CallContext: the foreign panic is re-raised by every enclosing CallContext
-(each pops its context first), so it escapes to the host -/
-theorem release_across_frames_escapes_counterexample :
-    (exec St.init (.call crossDef [.op (.reqMem 2048#64), .call CtxDef.none [.op (.relMem 2048#64)]])).2 = .crashed ∧
-    (exec St.init (.call crossDef [.op (.reqMem 2048#64), .call CtxDef.none [.op (.relMem 2048#64)]])).1.st = St.init := by
+def limitedRoot : Frame := { (run St.init [.push crossDef]).cur with used := ⟨0#64, 10#64, 0#64⟩ }
+/-- non-vacuity of the one remaining `crash`: a stack whose outermost context is itself
+memory-limited (not what `rt.New` builds) and a release of more than the whole stack accounts for;
+the context above has already been drained when the outermost one panics -/
+example : (step ⟨limitedRoot.child CtxDef.none, [limitedRoot]⟩ (.relMem 11#64)).2 = .crash ∧
+    (step ⟨limitedRoot.child CtxDef.none, [limitedRoot]⟩ (.relMem 10#64)).2 = .ok ∧
+    (step ⟨limitedRoot.child CtxDef.none, [limitedRoot]⟩ (.relMem 10#64)).1.parents.map (fun f => f.used.Memory) = [0#64] := by
+  decide +kernel
+
+def staleDef : CtxDef := ⟨⟨0#64, 700#64, 0#64⟩, Res.zero, 0#16⟩
+/-- parent requires 600; the pcall bracket releases 500 of them (cascade) and then asks for 150 -/
+def staleProg (M : BitVec 64) : Item :=
+  .call ⟨⟨0#64, M, 0#64⟩, Res.zero, 0#16⟩
+    [.op (.reqMem 600#64), .call CtxDef.none [.op (.relMem 500#64), .op (.reqMem 150#64)], .op (.reqMem 520#64)]
+
+/-- **the interplay of 8007e69 with 0426709 reopens a hole**: the bracket's limit was "all the
+parent had left" when it was pushed (100 under M = 700); after the bracket has released 500 bytes
+of the parent the parent has 600 left, but the bracket's limit is still 100: its request of 150 is
+refused, and since `100 ≠ 700 − 100` the equality test of propagateTermination fails — the
+termination is absorbed, the program sees it and goes on (`done`).  Under the larger limit 760
+nothing is refused in the bracket and the program is killed later: killed is not monotone in M.
+Replayed on the real interpreter by probe `stale-limit` of checks/c06.py (a coroutine created in
+the parent and finished inside pcall, then a string.rep). -/
+theorem stale_limit_absorbs_counterexample :
+    (exec St.init (staleProg 700#64)).1.results.reverse.map (fun r => (r.depth, r.status, r.exit)) =
+      [(2, StatusKilled, .killed .mem), (1, StatusDone, .done)] ∧
+    (exec St.init (staleProg 760#64)).1.results.reverse.map (fun r => (r.depth, r.status, r.exit)) =
+      [(2, StatusDone, .done), (1, StatusKilled, .killed .mem)] := by decide +kernel
+
+/-- the same pair as a failure of monotonicity: done under 700, killed under 760 -/
+theorem mem_kill_monotone_nested_counterexample :
+    (∃ r ∈ (exec St.init (staleProg 760#64)).1.results, r.depth = 1 ∧ r.status = StatusKilled) ∧
+    (∃ r ∈ (exec St.init (staleProg 700#64)).1.results, r.depth = 1 ∧ r.status = StatusDone) := by
   decide +kernel
 
 /-! ### the compile pipeline of runtime/lib.go (hand model of its accounting) -/
@@ -156,10 +245,10 @@ inductive CompilePath | parseError | compileError | codegenError | success
 
 def compileMemOps (S : BitVec 64) : CompilePath → List MemOp
   | .parseError => [.req S, .rel S]
-  -- ParseLuaChunk: req S.  compileLuaStat: req S (consts); CompileLuaChunk fails; rel S (AST);
-  -- return err with statSize still S → deferred: rel S (consts), rel S (AST again)
-  | .compileError => [.req S, .req S, .rel S, .rel S, .rel S]
-  -- … AST released, statSize := 0; req S (unit); CompileQueue fails → deferred: rel S (consts), rel 0
+  -- ParseLuaChunk: req S.  compileLuaStat: req S (consts); CompileLuaChunk fails; rel S (AST) and
+  -- statSize := 0 (fcd5799: before the error test) → deferred: rel S (consts), rel 0
+  | .compileError => [.req S, .req S, .rel S, .rel S, .rel 0#64]
+  -- … req S (unit); CompileQueue fails → deferred: rel S (consts), rel 0
   | .codegenError => [.req S, .req S, .rel S, .req S, .rel S, .rel 0#64]
   | .success => [.req S, .req S, .rel S, .req S, .rel S, .rel 0#64]
 
@@ -168,28 +257,24 @@ def net : List MemOp → Int
   | .req n :: r => n.toNat + net r
   | .rel n :: r => net r - n.toNat
 
-/-- parse errors release exactly what was required; successful compilation releases AST and IR
-constants and hands the unit's charge (`S`) to the caller, which releases it (`defer
-r.ReleaseMem(unitSize)` in CompileAndLoadLuaChunk); a code-generation error leaves the unit's
-charge behind (over-accounting, harmless for the host) -/
+/-- every exit path of the compile pipeline releases only what it required (`Balanced`), and exactly:
+parse and compile errors net 0; successful compilation hands the unit's charge (`S`) to the caller,
+which releases it (`defer r.ReleaseMem(unitSize)` in CompileAndLoadLuaChunk); a code-generation
+error leaves the unit's charge behind (over-accounting, harmless for the host) -/
 theorem require_release_paired (S : BitVec 64) :
     net (compileMemOps S .parseError) = 0 ∧ Balanced 0 (compileMemOps S .parseError) ∧
+    net (compileMemOps S .compileError) = 0 ∧ Balanced 0 (compileMemOps S .compileError) ∧
     net (compileMemOps S .success) = S.toNat ∧ Balanced 0 (compileMemOps S .success) ∧
     net (compileMemOps S .codegenError) = S.toNat ∧ Balanced 0 (compileMemOps S .codegenError) := by
   have h1 : net (compileMemOps S .parseError) = 0 := by
     simp only [compileMemOps, net]; omega
+  have h1' : net (compileMemOps S .compileError) = 0 := by
+    simp only [compileMemOps, net, BitVec.toNat_ofNat]; omega
   have h2 : net (compileMemOps S .success) = S.toNat := by
     simp only [compileMemOps, net, BitVec.toNat_ofNat]; omega
   have h3 : net (compileMemOps S .codegenError) = S.toNat := by
     simp only [compileMemOps, net, BitVec.toNat_ofNat]; omega
-  refine ⟨h1, ?_, h2, ?_, h3, ?_⟩ <;> simp [compileMemOps, Balanced]
-
-/-- the compile-error path releases the AST twice: net −S, and the running balance goes negative
-on the last release (`load("goto nowhere")` under a memory limit) -/
-theorem require_release_paired_counterexample :
-    net (compileMemOps 2012#64 .compileError) = -2012 ∧ ¬ Balanced 0 (compileMemOps 2012#64 .compileError) := by
-  refine ⟨by decide, ?_⟩
-  simp [compileMemOps, Balanced]
+  refine ⟨h1, ?_, h1', ?_, h2, ?_, h3, ?_⟩ <;> simp [compileMemOps, Balanced]
 
 /-! ## non-vacuity -/
 
@@ -213,10 +298,14 @@ def memProg : List Item :=
    .op (.relMem 100#64)]
 
 /-- hypotheses of `mem_kill_monotone_nested` with M = 4000, M' = 1000 (δ = 3000): related fresh contexts, a
-two-deep pcall nest; it survives under 4000 and is killed (at depth 3, propagated to the top) under 1000 -/
+two-deep pcall nest whose brackets release only their own memory; it survives under 4000 and is killed (at
+depth 3, propagated to the top) under 1000 -/
 example : RelS 3000 (memLimited 4000#64) (memLimited 1000#64) :=
   ⟨by decide, by decide, by decide, by decide, by decide, by decide, by decide, by decide, by decide, by decide,
    by decide, by decide⟩
+
+example : bodyLocalRel 4000 0 memProg := by
+  simp [memProg, bodyLocalRel, Item.localRel, Item.bal]
 
 example : bodyPcallMem memProg = true ∧
     (runBody (Acc.start (memLimited 4000#64)) memProg).2 = .done ∧
